@@ -51,6 +51,24 @@ CHECKS.update({
         ref="5/C09"),
 })
 
+CHECKS.update({
+    "C05": dict(
+        technique="TLA+ byte-count model of the secure-session framing (spec/session/SecureFraming.tla) model-checked by TLC (every segmentation for tiny constants, boundary cut classes for the real ones); TLC -simulate behaviours replayed on the real SecureHomeKitProtocol; recorded runs (all single/double cuts, all corruption sites and bits, outbound layouts) validated by TLC against SecureFraming_Trace",
+        text="TLC checks InboundExact, NeverEarly, CounterIsFrameIndex, CorruptNeverDelivered, DeadOnlyByCorruption, AuthFailureEndsSession, AlignedInvariant, OutboundExact for all frame-size lists of <=3 frames, all read sequences and every single corruption (length prefix / ciphertext / tag). On the real code the reference accessory's encrypted EVENT stream, cut into the chosen frame sizes and reads, must produce exactly the specification's number of decrypted frames after every read (observed at the AEAD boundary), consecutive counters from 0, the EVENT messages contained in the decrypted prefix, a RuntimeError exactly when the spec's session dies; every request of the boundary lengths must leave in one writelines call that the reference accessory decrypts to the request with the spec's frame layout.",
+        note="AEAD assumed ideal. Decrypts observed by substituting a logging subclass of the decryptor class in the connection module. Trusted: TLC, harness/refacc (independent ChaCha20-Poly1305 framing).",
+        ref="5/C05"),
+    "C13": dict(
+        technique="TLA+ spec of per-characteristic read/write reporting on IP, CoAP and BLE (spec/chars/CharIO.tla) model-checked by TLC over all replies of a bounded domain; TLC-exported cases concretised as scripted accessory replies and run on the real IpPairing (in-process secure session), format_characteristic_list, CoAPPairing (real encryption context and PDU codec) and BlePairing.put_characteristics (scripted GATT); every observation (plus seeded random replies) validated by TLC against CharIO_Trace",
+        text="TLC checks Faithful/NotifySubsetAccepted/RejectedReported/ReadTotal for every status vector (0, all defined codes in both signs, unknown), 204 vs 207, request-wide status with partial lists, and missing/duplicated/non-dict/id-less entries over 1..4 characteristics on two accessory ids. Every real execution (48k quick, 234k+ thorough) must satisfy WriteOK/ReadOK: rejected items reported with the accessory's status and never notified, accepted readable items notified exactly once with the written value, no accepted item with a non-zero status, a request-wide error applied exactly to unmentioned items, malformed entries skipped, and the call failing only if something was rejected.",
+        note="Trusted: TLC, harness/vloop.py, harness/simnet.py and harness/refacc (IP), the replaced aiocoap Context, and the scripted GATT client with stubbed connection set-up and no session keys (BLE). BLE reads are out of scope. CoAP/BLE statuses are compared by magnitude and limited to PDU statuses 0..6. Write replies with a request-wide status or unrequested items, and id-ful status-less entries, are outside the claim. Contradictory duplicates are accepted either way.",
+        ref="5/C13"),
+    "C14": dict(
+        technique="TLA+ spec of value preparation (spec/chars/ValuePrep.tla, integer fixed point) model-checked by TLC over every small tuple and a real-magnitude domain; TLC-exported cases run through check_convert_value and Service.build_update in int/float/string/garbage presentations, and every observation (plus seeded random cases) validated by TLC against ValuePrep_Trace",
+        text="TLC checks OnGrid/Nearest/TiesUp/InRangeIfBoundsOnGrid/IntegerFormatsInteger/BoolIs01/ErrorIffUnconvertible on all enumerated (format, scale, min, max, step, input) tuples, and ShiftLemma/ScaleLemma. Every execution of the real code (~0.9 M quick, ~19 M thorough) must lie in the relation Accept: exact nearest grid point with ties up for integer formats with integer inputs at any magnitude up to 2^64-1 and minima down to -2^31; exact grid-point choice plus a six-significant-digit allowance for fractional/float cases; FormatError and no other exception for unconvertible input.",
+        note="Trusted: TLC; floats are read by their repr (decimal reading); the allowance floor(M/25000) units (M/25 + 1 thousandths of a unit below 25,000 units) is derived from four half-ulp roundings at 6 digits; magnitudes above 5e8 units are reached only for the exact class via TLC-checked translation/scaling lemmas; ties below the grid origin, integer formats without a step and nan/inf are accepted either way; uint width is not enforced.",
+        ref="5/C14"),
+})
+
 NOT_APPLICABLE = {
     "C02": "Byte-for-byte numeric equality of SRP-6a over a 3072-bit group with SHA-512: no state, schedule or history to model, TLC integers are 32-bit; a TLA+ transcription over a toy group would say nothing about the hard-coded constants. See DESIGN.md section 5/C02.",
 }
